@@ -655,11 +655,11 @@ impl Fam {
     pub fn elems(self) -> &'static [FElem] {
         use FElem::*;
         match self {
-            Fam::Alloc | Fam::AllocWith | Fam::AllocUninit => &[U8, U32, U64, A32, B3, Q9, Trk, Zst],
-            Fam::AllocDefault => &[U32, U64, Trk, Zst],
-            Fam::SliceCopy | Fam::UninitSlice => &[U8, U32, U64, A32, B3],
+            Fam::Alloc | Fam::AllocWith | Fam::AllocUninit => &[U8, U32, U64, A32, B3, Q9, Trk, Zst, Z8, Unit],
+            Fam::AllocDefault => &[U32, U64, Trk, Zst, Z8, Unit],
+            Fam::SliceCopy | Fam::UninitSlice => &[U8, U32, U64, A32, B3, Z8, Unit],
             Fam::SliceClone | Fam::SliceFill | Fam::SliceFillWith | Fam::SliceMove | Fam::UninitSliceFor | Fam::IterExact | Fam::Iter | Fam::IterMut | Fam::IterMutRev => {
-                &[U8, U32, U64, A32, B3, Trk, Zst]
+                &[U8, U32, U64, A32, B3, Trk, Zst, Z8, Unit]
             }
             Fam::Str | Fam::CStr | Fam::CStrFromStr => &[U8],
         }
@@ -699,7 +699,12 @@ pub enum FElem {
     B3,
     Q9,
     Trk,
+    /// `TrkZ`: zero-sized, align 1, drop accounting
     Zst,
+    /// `[u64; 0]`: zero-sized, `Copy`, align 8 (a zero-sized request that reaches the allocator pads the position)
+    Z8,
+    /// `()`: zero-sized, `Copy`, align 1
+    Unit,
 }
 
 impl FElem {
@@ -713,6 +718,8 @@ impl FElem {
             FElem::Q9 => Layout::new::<[u64; 9]>(),
             FElem::Trk => Layout::new::<Trk>(),
             FElem::Zst => Layout::new::<TrkZ>(),
+            FElem::Z8 => Layout::new::<[u64; 0]>(),
+            FElem::Unit => Layout::new::<()>(),
         }
     }
     /// the `Elem` under which a slice block of this type can later be handed to `shrink_slice`
@@ -979,7 +986,7 @@ macro_rules! impl_ft_pod {
         }
     )*};
 }
-impl_ft_pod!(u8 u32 u64 Al32 [u8; 3] [u64; 9]);
+impl_ft_pod!(u8 u32 u64 Al32 [u8; 3] [u64; 9] [u64; 0] ());
 
 impl FT for Trk {
     fn from_src(src: &[u8], i: usize) -> Self {
@@ -1206,30 +1213,30 @@ macro_rules! for_felem {
 /// the complete family through the trait object (compiled once)
 pub fn fam_dyn<'a>(b: &dyn BumpAllocatorCoreScope<'a>, q: &FamReq) -> FamRes {
     match q.ep {
-        Fam::Alloc => for_felem!(q.elem, [U8 => u8, U32 => u32, U64 => u64, A32 => Al32, B3 => [u8; 3], Q9 => [u64; 9], Trk => Trk, Zst => TrkZ], T => ep_alloc::<_, T>(b, q)),
-        Fam::AllocWith => for_felem!(q.elem, [U8 => u8, U32 => u32, U64 => u64, A32 => Al32, B3 => [u8; 3], Q9 => [u64; 9], Trk => Trk, Zst => TrkZ], T => ep_alloc_with::<_, T>(b, q)),
-        Fam::AllocDefault => for_felem!(q.elem, [U32 => u32, U64 => u64, Trk => Trk, Zst => TrkZ], T => ep_alloc_default::<_, T>(b, q)),
-        Fam::AllocUninit => for_felem!(q.elem, [U8 => u8, U32 => u32, U64 => u64, A32 => Al32, B3 => [u8; 3], Q9 => [u64; 9], Trk => Trk, Zst => TrkZ], T => ep_alloc_uninit::<_, T>(b, q)),
-        Fam::SliceCopy => for_felem!(q.elem, [U8 => u8, U32 => u32, U64 => u64, A32 => Al32, B3 => [u8; 3]], T => ep_slice_copy::<_, T>(b, q)),
-        Fam::SliceClone => for_felem!(q.elem, [U8 => u8, U32 => u32, U64 => u64, A32 => Al32, B3 => [u8; 3], Trk => Trk, Zst => TrkZ], T => ep_slice_clone::<_, T>(b, q)),
-        Fam::SliceFill => for_felem!(q.elem, [U8 => u8, U32 => u32, U64 => u64, A32 => Al32, B3 => [u8; 3], Trk => Trk, Zst => TrkZ], T => ep_slice_fill::<_, T>(b, q)),
-        Fam::SliceFillWith => for_felem!(q.elem, [U8 => u8, U32 => u32, U64 => u64, A32 => Al32, B3 => [u8; 3], Trk => Trk, Zst => TrkZ], T => ep_slice_fill_with::<_, T>(b, q)),
-        Fam::SliceMove => for_felem!(q.elem, [U8 => u8, U32 => u32, U64 => u64, A32 => Al32, B3 => [u8; 3], Trk => Trk, Zst => TrkZ], T => ep_slice_move::<_, T>(b, q)),
+        Fam::Alloc => for_felem!(q.elem, [U8 => u8, U32 => u32, U64 => u64, A32 => Al32, B3 => [u8; 3], Q9 => [u64; 9], Trk => Trk, Zst => TrkZ, Z8 => [u64; 0], Unit => ()], T => ep_alloc::<_, T>(b, q)),
+        Fam::AllocWith => for_felem!(q.elem, [U8 => u8, U32 => u32, U64 => u64, A32 => Al32, B3 => [u8; 3], Q9 => [u64; 9], Trk => Trk, Zst => TrkZ, Z8 => [u64; 0], Unit => ()], T => ep_alloc_with::<_, T>(b, q)),
+        Fam::AllocDefault => for_felem!(q.elem, [U32 => u32, U64 => u64, Trk => Trk, Zst => TrkZ, Z8 => [u64; 0], Unit => ()], T => ep_alloc_default::<_, T>(b, q)),
+        Fam::AllocUninit => for_felem!(q.elem, [U8 => u8, U32 => u32, U64 => u64, A32 => Al32, B3 => [u8; 3], Q9 => [u64; 9], Trk => Trk, Zst => TrkZ, Z8 => [u64; 0], Unit => ()], T => ep_alloc_uninit::<_, T>(b, q)),
+        Fam::SliceCopy => for_felem!(q.elem, [U8 => u8, U32 => u32, U64 => u64, A32 => Al32, B3 => [u8; 3], Z8 => [u64; 0], Unit => ()], T => ep_slice_copy::<_, T>(b, q)),
+        Fam::SliceClone => for_felem!(q.elem, [U8 => u8, U32 => u32, U64 => u64, A32 => Al32, B3 => [u8; 3], Trk => Trk, Zst => TrkZ, Z8 => [u64; 0], Unit => ()], T => ep_slice_clone::<_, T>(b, q)),
+        Fam::SliceFill => for_felem!(q.elem, [U8 => u8, U32 => u32, U64 => u64, A32 => Al32, B3 => [u8; 3], Trk => Trk, Zst => TrkZ, Z8 => [u64; 0], Unit => ()], T => ep_slice_fill::<_, T>(b, q)),
+        Fam::SliceFillWith => for_felem!(q.elem, [U8 => u8, U32 => u32, U64 => u64, A32 => Al32, B3 => [u8; 3], Trk => Trk, Zst => TrkZ, Z8 => [u64; 0], Unit => ()], T => ep_slice_fill_with::<_, T>(b, q)),
+        Fam::SliceMove => for_felem!(q.elem, [U8 => u8, U32 => u32, U64 => u64, A32 => Al32, B3 => [u8; 3], Trk => Trk, Zst => TrkZ, Z8 => [u64; 0], Unit => ()], T => ep_slice_move::<_, T>(b, q)),
         Fam::Str => ep_str(b, q),
         Fam::CStr => ep_cstr(b, q),
         Fam::CStrFromStr => ep_cstr_from_str(b, q),
-        Fam::UninitSlice => for_felem!(q.elem, [U8 => u8, U32 => u32, U64 => u64, A32 => Al32, B3 => [u8; 3]], T => ep_uninit_slice::<_, T>(b, q)),
-        Fam::UninitSliceFor => for_felem!(q.elem, [U8 => u8, U32 => u32, U64 => u64, A32 => Al32, B3 => [u8; 3], Trk => Trk, Zst => TrkZ], T => ep_uninit_slice_for::<_, T>(b, q)),
-        Fam::IterExact => for_felem!(q.elem, [U8 => u8, U32 => u32, U64 => u64, A32 => Al32, B3 => [u8; 3], Trk => Trk, Zst => TrkZ], T => ep_iter_exact::<_, T>(b, q)),
-        Fam::Iter => for_felem!(q.elem, [U8 => u8, U32 => u32, U64 => u64, A32 => Al32, B3 => [u8; 3], Trk => Trk, Zst => TrkZ], T => ep_iter::<_, T>(b, q)),
+        Fam::UninitSlice => for_felem!(q.elem, [U8 => u8, U32 => u32, U64 => u64, A32 => Al32, B3 => [u8; 3], Z8 => [u64; 0], Unit => ()], T => ep_uninit_slice::<_, T>(b, q)),
+        Fam::UninitSliceFor => for_felem!(q.elem, [U8 => u8, U32 => u32, U64 => u64, A32 => Al32, B3 => [u8; 3], Trk => Trk, Zst => TrkZ, Z8 => [u64; 0], Unit => ()], T => ep_uninit_slice_for::<_, T>(b, q)),
+        Fam::IterExact => for_felem!(q.elem, [U8 => u8, U32 => u32, U64 => u64, A32 => Al32, B3 => [u8; 3], Trk => Trk, Zst => TrkZ, Z8 => [u64; 0], Unit => ()], T => ep_iter_exact::<_, T>(b, q)),
+        Fam::Iter => for_felem!(q.elem, [U8 => u8, U32 => u32, U64 => u64, A32 => Al32, B3 => [u8; 3], Trk => Trk, Zst => TrkZ, Z8 => [u64; 0], Unit => ()], T => ep_iter::<_, T>(b, q)),
         Fam::IterMut | Fam::IterMutRev => unreachable!(),
     }
 }
 
 pub fn fam_dyn_mut<'a>(b: &mut dyn MutBumpAllocatorCoreScope<'a>, q: &FamReq) -> FamRes {
     match q.ep {
-        Fam::IterMut => for_felem!(q.elem, [U8 => u8, U32 => u32, U64 => u64, A32 => Al32, B3 => [u8; 3], Trk => Trk, Zst => TrkZ], T => ep_iter_mut::<_, T>(b, q)),
-        Fam::IterMutRev => for_felem!(q.elem, [U8 => u8, U32 => u32, U64 => u64, A32 => Al32, B3 => [u8; 3], Trk => Trk, Zst => TrkZ], T => ep_iter_mut_rev::<_, T>(b, q)),
+        Fam::IterMut => for_felem!(q.elem, [U8 => u8, U32 => u32, U64 => u64, A32 => Al32, B3 => [u8; 3], Trk => Trk, Zst => TrkZ, Z8 => [u64; 0], Unit => ()], T => ep_iter_mut::<_, T>(b, q)),
+        Fam::IterMutRev => for_felem!(q.elem, [U8 => u8, U32 => u32, U64 => u64, A32 => Al32, B3 => [u8; 3], Trk => Trk, Zst => TrkZ, Z8 => [u64; 0], Unit => ()], T => ep_iter_mut_rev::<_, T>(b, q)),
         _ => unreachable!(),
     }
 }
@@ -1291,7 +1298,7 @@ where
 {
     assert!(fam_static_has(q), "family call not instantiated for this entry");
     if q.ep.is_mut() {
-        if q.len > 0 && q.elem != FElem::Zst {
+        if q.len > 0 && q.elem.layout().size() != 0 {
             // the same preparation the entry point is about to issue, observed on the unchanged state
             let pre = {
                 let d: &dyn BumpAllocatorCoreScope<'a> = &*sc;
